@@ -113,3 +113,68 @@ package nbt
 //@   ensures Sfail(st) ==> err != nil                                                [@errprop]
 //@   ensures Spos(st) >= p0                                                          [@consume]
 //@   modifies stream(d.r)                                                            [@frame]
+
+// ---------------------------------------------------------------- leaf encoders (C01, C02)
+
+//@ func writeInt16(w, n) (err)
+//@   let wk = sink(w)
+//@   let l0 = old(Wlen(wk))
+//@   ensures all(k, 0, l0, Wout(wk, k) == old(Wout(wk, k)))                         [@frame]
+//@   ensures err == nil ==> Wlen(wk) == l0 + 2 && be16(Woutrow(wk), l0) == uint16(n) [@value @count]
+//@   ensures Wfail(wk) ==> err != nil                                                [@errprop]
+//@   ensures !Wfail(wk) ==> err == nil                                               [@errprop]
+//@   ensures Wlen(wk) >= l0 && Wlen(wk) <= l0 + 2                                    [@count]
+//@   modifies sink(w)                                                                [@frame]
+
+//@ func writeInt32(w, n) (err)
+//@   let wk = sink(w)
+//@   let l0 = old(Wlen(wk))
+//@   ensures all(k, 0, l0, Wout(wk, k) == old(Wout(wk, k)))                         [@frame]
+//@   ensures err == nil ==> Wlen(wk) == l0 + 4 && be32(Woutrow(wk), l0) == uint32(n) [@value @count]
+//@   ensures Wfail(wk) ==> err != nil                                                [@errprop]
+//@   ensures !Wfail(wk) ==> err == nil                                               [@errprop]
+//@   ensures Wlen(wk) >= l0 && Wlen(wk) <= l0 + 4                                    [@count]
+//@   modifies sink(w)                                                                [@frame]
+
+//@ func writeInt64(w, n) (err)
+//@   let wk = sink(w)
+//@   let l0 = old(Wlen(wk))
+//@   ensures all(k, 0, l0, Wout(wk, k) == old(Wout(wk, k)))                         [@frame]
+//@   ensures err == nil ==> Wlen(wk) == l0 + 8 && be64(Woutrow(wk), l0) == uint64(n) [@value @count]
+//@   ensures Wfail(wk) ==> err != nil                                                [@errprop]
+//@   ensures !Wfail(wk) ==> err == nil                                               [@errprop]
+//@   ensures Wlen(wk) >= l0 && Wlen(wk) <= l0 + 8                                    [@count]
+//@   modifies sink(w)                                                                [@frame]
+
+// A tag header: type byte, big-endian 16-bit name length, name bytes.
+//@ func writeTag(w, tagType, tagName) (err)
+//@   let wk = sink(w)
+//@   let l0 = old(Wlen(wk))
+//@   requires len(tagName) < 32768
+//@   ensures all(k, 0, l0, Wout(wk, k) == old(Wout(wk, k)))                         [@frame]
+//@   ensures err == nil ==> Wlen(wk) == l0 + 3 + len(tagName) && Wout(wk, l0) == tagType && int(be16(Woutrow(wk), l0 + 1)) == len(tagName)   [@value @count]
+//@   ensures err == nil ==> all(k, 0, len(tagName), Wout(wk, l0 + 3 + k) == tagName[k])   [@value]
+//@   ensures Wfail(wk) ==> err != nil                                                [@errprop]
+//@   ensures Wlen(wk) >= l0                                                          [@count]
+//@   modifies sink(w)                                                                [@frame]
+
+// A list header: element type byte, big-endian 32-bit count.
+//@ func (*Encoder).writeListHeader(e; elementType, n) (err)
+//@   let wk = sink(e.w)
+//@   let l0 = old(Wlen(wk))
+//@   requires !isnil(e.w)
+//@   ensures all(k, 0, l0, Wout(wk, k) == old(Wout(wk, k)))                         [@frame]
+//@   ensures err == nil ==> Wlen(wk) == l0 + 5 && Wout(wk, l0) == elementType && be32(Woutrow(wk), l0 + 1) == uint32(int32(n))   [@value @count]
+//@   ensures Wfail(wk) ==> err != nil                                                [@errprop]
+//@   ensures Wlen(wk) >= l0                                                          [@count]
+//@   modifies sink(e.w)                                                              [@frame]
+
+// RawMessage re-encodes exactly the bytes it holds.
+//@ func (RawMessage).MarshalNBT(m; w) (err)
+//@   let wk = sink(w)
+//@   let l0 = old(Wlen(wk))
+//@   ensures all(k, 0, l0, Wout(wk, k) == old(Wout(wk, k)))                         [@frame]
+//@   ensures err == nil ==> Wlen(wk) == l0 + len(m.Data) && all(k, 0, len(m.Data), Wout(wk, l0 + k) == m.Data[k])   [@value @count]
+//@   ensures Wfail(wk) ==> err != nil                                                [@errprop]
+//@   ensures !Wfail(wk) ==> err == nil                                               [@errprop]
+//@   modifies sink(w)                                                                [@frame]
